@@ -25,7 +25,8 @@ lemma rot_accept_iff_conj (U : Matrix (Fin 3) (Fin 3) ℝ) :
       |(Uᵀ * U) 2 0| ≤ (1e-6 : ℝ) ∧ |(Uᵀ * U) 2 1| ≤ (1e-6 : ℝ) ∧
       |(Uᵀ * U) 2 2 - 1| ≤ (1e-6 : ℝ) + (1e-5 : ℝ) ∧
       |U.det - 1| ≤ (1e-8 : ℝ) + (1e-5 : ℝ) := by
-  unfold Checks._check_rotation_matrix
+  -- unfold + zeta-reduce (tolerates `UᵀU` being bound to a name), then split whatever if-tree is there
+  simp only [Checks._check_rotation_matrix]
   split_ifs <;> simp_all
 
 /-- entrywise bound of a 3×3 product -/
@@ -344,8 +345,9 @@ example (t : ℝ) : Checks._check_rotation_matrix (Rz t + !![0, 0, 0; 0, 0, 1e-3
 theorem euler_accept_iff (a b c : ℝ) :
     Checks._check_euler_angles a b c = some () ↔
       (0 ≤ a ∧ a ≤ 2 * Real.pi) ∧ (0 ≤ b ∧ b ≤ 2 * Real.pi) ∧ (0 ≤ c ∧ c ≤ 2 * Real.pi) := by
-  unfold Checks._check_euler_angles
-  rw [mul_comm Real.pi 2]
+  -- unfold + zeta-reduce (tolerates `2*π` being bound to a name), normalise `π*2`/`≥` by simp (no failure
+  -- when the pattern is absent, unlike `rw`), then split whatever if-tree is there
+  simp only [Checks._check_euler_angles, mul_comm Real.pi 2, ge_iff_le]
   split_ifs <;> simp_all
 
 /-- C20: an Euler angle outside `[0, 2π]` raises ValueError. -/
@@ -376,11 +378,17 @@ theorem ubi_triple_eq_det (M : Matrix (Fin 3) (Fin 3) ℝ) :
 determinant, is non-negative (right-handed or degenerate). -/
 theorem ubi_accept_iff (M : Matrix (Fin 3) (Fin 3) ℝ) :
     Checks._check_ubi_matrix M = some () ↔ 0 ≤ M.det := by
-  unfold Checks._check_ubi_matrix
-  rw [ubi_triple_eq_det]
-  split_ifs with h
-  · simp; exact h
-  · simp; exact not_lt.mp h
+  -- `simp only [f, ...]` unfolds and zeta-reduces any `let`s (however many / however named); the triple
+  -- product is rewritten to `det` in either operand order of the dot product; the case analysis is on the
+  -- sign of `det`, not on the syntactic shape of the `if`
+  have hcomm : crossProduct (M 0) (M 1) ⬝ᵥ M 2 = M.det := by
+    rw [dotProduct_comm]; exact ubi_triple_eq_det M
+  simp only [Checks._check_ubi_matrix, ubi_triple_eq_det, hcomm, ge_iff_le, gt_iff_lt]
+  rcases lt_or_ge M.det 0 with h | h
+  · have h' : ¬ 0 ≤ M.det := not_le.mpr h
+    simp [h, h']
+  · have h' : ¬ M.det < 0 := not_lt.mpr h
+    simp [h, h']
 
 /-- C20: a left-handed UBI raises ValueError. -/
 theorem ubi_reject_lefthanded (M : Matrix (Fin 3) (Fin 3) ℝ) (h : M.det < 0) :
